@@ -280,7 +280,8 @@ pub fn gen(ctx: &Ctx) -> Vec<Value> {
         let v = gen_rb(&mut r);
         push(&mut out, sub, v);
     }
-    for k in 0..24 * scale {
+    // (thorough: 72 big columns — each is several MB of outcomes)
+    for k in 0..24 * (if ctx.thorough() { 3 } else { 1 }) {
         let mut r = rng.fork();
         let sub = r.0;
         let v = gen_big(&mut r, k);
